@@ -363,14 +363,14 @@ SPEC = {
     'id': 'C04',
     'rule': ('Hypothesis circuits over the supported gate set (NOT + 10 two-input types, 2-5 inputs, 2-14 gates; live = built '
              'from the cone of the outputs, or with dead gates; literal duplicates; a class with unsupported types that must be '
-             'rejected) x basis AIG/XAIG/FULL as string (any case) or enum x max_subcircuit_size 2-6 x cut_size 2-4 x cut_limit '
+             'rejected; shape motif = chains of locally redundant cones sharing inputs; every case built through a storage-order route) x basis AIG/XAIG/FULL as string (any case) or enum x max_subcircuit_size 2-6 x cut_size 2-4 x cut_limit '
              '2-25 x fanout limit x solver_time_limit_sec 0 (in-process) / 15 (forked) / 1 with deterministic time-out injection x '
              'enable_validation x a GENERATED admissible cut family (policy-driven stand-in for the cut enumerator: node order, '
              'priority of the cut_limit truncation, listing order) x per-worker PYTHONHASHSEED x seeded uuid stream. Oracle: same '
              'inputs in order, same number of outputs, reference truth table equal output by output, gates_number() not larger, '
              'wellformed(); FailedValidationError is always a violation; any other exception is a violation on circuits without '
              'functionally equivalent gates. Case classes eq / comp / clean, const, dead computed from reference tables. '
-             'Non-trivial: the result differs structurally from the argument.'),
+             'Finite part: all 780 two-motif chains (sharded, every run). Non-trivial: the result differs structurally from the argument.'),
     'assumptions': ['cut enumerator and SAT solver are stand-ins inside the quantified domain (any admissible cut family, any sound and complete solver)'],
     'sharded': {'motif_pairs': motif_pairs_sweep},
     'replay': {'motif_pairs': replay_motif_pair},
